@@ -4,7 +4,7 @@ from __future__ import annotations
 import ast
 
 from ..cfg import enum_paths
-from ..loader import AnalysisError, call_attr, call_name, dotted, unparse
+from ..loader import AnalysisError, call_attr, call_name, dotted, unparse, walk_own
 from ..prototab import ProtoTable, elem_schema, find_field
 from ..rulekit import arg_of, const_value, def_value, is_none_test, local_defs
 from . import c01
@@ -505,6 +505,119 @@ def rule_fail_all(ctx):
                 ctx.ob(R, fi, t, any(n.kind == "raise" for n in tb) and not any(n in tb for n in enq), f"{kind} test does not raise", text=f"{kind}-raises")
 
 
+
+# ---- bookkeeping futures stay under the accumulator's control -------------------------------------------------------------------
+_FUT_METHODS = {"done", "set_result", "set_exception", "exception", "add_done_callback", "remove_done_callback", "cancelled", "result"}
+_OWNED = ("future", "_drain_waiter")
+
+
+def _parent(n):
+    return getattr(n, "_parent", None)
+
+
+def rule_future_ownership(ctx):
+    R = "future-ownership"
+    ctx.rep.rule(R, "MessageBatch.future and MessageBatch._drain_waiter are the accumulator's bookkeeping (flush, flush_for_commit, "
+                    "the pending-batch registry wait on them): every read of one in the producer package is a state query/resolution "
+                    "(.done/.set_result/...), is wrapped in asyncio.shield() before it leaves, or only reaches asyncio.wait() (which never "
+                    "cancels its arguments) -- never a bare return / await / gather / wait_for, through which a caller's cancellation or "
+                    "timeout would cancel the bookkeeping future while the batch is still unacknowledged")
+    n_sites = 0
+    for q, fi in sorted(ctx.repo.funcs.items()):
+        if not q.startswith("aiokafka.producer."):
+            continue
+        own = list(walk_own(fi.node))
+        aliases = {}     # local name -> the attribute read it was bound from
+        for n in own:
+            if isinstance(n, ast.Assign) and len(n.targets) == 1 and isinstance(n.targets[0], ast.Name) \
+                    and isinstance(n.value, ast.Attribute) and n.value.attr in _OWNED:
+                aliases[n.targets[0].id] = n.value
+        sites = []
+        for n in own:
+            if isinstance(n, ast.Attribute) and n.attr in _OWNED and isinstance(n.ctx, ast.Load):
+                # `self.future` of other classes (e.g. a handler's own future) is not a MessageBatch future
+                if fi.owner_cls is not None and unparse(n.value) == "self" and not fi.owner_cls.qualname.endswith(".MessageBatch"):
+                    continue
+                sites.append(n)
+            elif isinstance(n, ast.Name) and n.id in aliases and isinstance(n.ctx, ast.Load):
+                sites.append(n)
+        for n in sites:
+            n_sites += 1
+            why = _future_use(fi, own, n)
+            ctx.ob(R, fi, n, why is None, f"bookkeeping future `{unparse(n)}` {why}", text=f"use:{unparse(n)}:{_use_kind(n)}")
+    ctx.anchor(n_sites >= 12, f"reads of MessageBatch.future/_drain_waiter in the producer package: {n_sites} < 12")
+
+
+def _use_kind(n):
+    p = _parent(n)
+    if isinstance(p, ast.Attribute):
+        return "." + p.attr
+    if isinstance(p, ast.Call):
+        return "arg:" + unparse(p.func)
+    return type(p).__name__
+
+
+def _is_call_to(p, names):
+    return isinstance(p, ast.Call) and unparse(p.func) in names
+
+
+def _future_use(fi, own, n):
+    """None when the read is under the accumulator's control, else what is wrong with it."""
+    p = _parent(n)
+    if isinstance(p, ast.Attribute) and p.value is n:
+        return None if p.attr in _FUT_METHODS else f"is used through .{p.attr}"
+    if _is_call_to(p, ("asyncio.shield",)) and n in p.args:
+        return None
+    if isinstance(p, ast.Assign) and p.value is n and len(p.targets) == 1 and isinstance(p.targets[0], ast.Name):
+        return None      # alias: its uses are sites of their own
+    if isinstance(p, ast.Assert) or isinstance(p, ast.Compare):
+        return None
+    # collected into a local container that only ever reaches asyncio.wait(...)
+    cont = None
+    if isinstance(p, (ast.ListComp, ast.SetComp)) and p.elt is n:
+        cont = p
+    elif isinstance(p, (ast.List, ast.Set, ast.Tuple)) and n in p.elts:
+        cont = p
+    elif isinstance(p, ast.Call) and isinstance(p.func, ast.Attribute) and p.func.attr in ("append", "add") and n in p.args and isinstance(p.func.value, ast.Name):
+        return _container_only_waited(own, p.func.value.id)
+    if cont is not None:
+        pp = _parent(cont)
+        if _is_call_to(pp, ("asyncio.wait",)) and pp.args and pp.args[0] is cont:
+            return None
+        if isinstance(pp, ast.Assign) and len(pp.targets) == 1 and isinstance(pp.targets[0], ast.Name):
+            return _container_only_waited(own, pp.targets[0].id)
+        if isinstance(pp, ast.AugAssign) and isinstance(pp.target, ast.Name):
+            return _container_only_waited(own, pp.target.id)
+        return "is collected into a container that is not only waited on"
+    if isinstance(p, ast.Return):
+        return "is returned bare: the caller's cancellation/timeout cancels it (wrap in asyncio.shield)"
+    if isinstance(p, ast.Await):
+        return "is awaited bare: cancelling the awaiting task cancels it"
+    if isinstance(p, ast.Starred) or isinstance(p, ast.Call):
+        return f"is passed to {unparse(p.func)[:40] if isinstance(p, ast.Call) else 'a call'}(), which may cancel it"
+    return f"escapes through {type(p).__name__}"
+
+
+def _container_only_waited(own, name):
+    for x in own:
+        if isinstance(x, ast.Name) and x.id == name and isinstance(x.ctx, ast.Load):
+            p = _parent(x)
+            if isinstance(p, ast.Attribute) and p.attr in ("append", "add", "update", "extend"):
+                continue
+            if _is_call_to(p, ("asyncio.wait",)) and p.args and p.args[0] is x:
+                continue
+            if isinstance(p, (ast.If, ast.While)) and p.test is x:
+                continue
+            if isinstance(p, ast.UnaryOp) and isinstance(p.op, ast.Not):
+                continue
+            if isinstance(p, ast.BoolOp):
+                continue
+            if _is_call_to(p, ("len", "bool")):
+                continue
+            return f"is collected into `{name}`, which is used by `{unparse(p)[:60]}` (only asyncio.wait() may receive it)"
+    return None
+
+
 def run(ctx):
     rep = ctx.rep
     rep.explanation = ("C02 structural clauses: once-only resolution guards, no loop-carried state in per-record metadata, typestate of a "
@@ -518,5 +631,6 @@ def run(ctx):
     rule_reply_shape(ctx)
     rule_flush(ctx)
     rule_fail_all(ctx)
+    rule_future_ownership(ctx)
     rep.nd("'within bounded time after faults cease' (liveness)")
     rep.nd("that the offset the broker reports is where the record really sits")
